@@ -245,14 +245,6 @@ class DataPacketReceiver(Elaboratable):
                     # Once we've moved on, this is no longer our first word.
                     m.d.ss += source.first.eq(0)
 
-                    # If we see unexpected control codes in our data packet, bail out.
-                    # Note that we'll only check for validity in positions we consider to have
-                    # valid data; as we always expect our data packet payload to be followed by
-                    # and "end of packet" set of control codes.
-                    with m.If((sink.ctrl & source.valid) != 0):
-                        m.d.comb += self.packet_bad.eq(1)
-                        m.next = "WAIT_FOR_HPSTART"
-
                     # Capture the current word and valid value, so we can refer to them in
                     # future states. This is necessary for CRC validation when we have a data payload
                     # that's not evenly divisible into words; see the instantiation of ``previous_word``.
@@ -261,9 +253,26 @@ class DataPacketReceiver(Elaboratable):
                         previous_valid  .eq(source.valid)
                     ]
 
+                    # Zero-length payload: the word we're looking at is already the CRC-32 (or the
+                    # framing of an aborted payload). Decide right away.
+                    with m.If(data_bytes_remaining == 0):
+                        with m.If((sink.ctrl == 0) & (sink.data == crc32.crc)):
+                            m.d.comb += self.packet_good.eq(1)
+                        with m.Else():
+                            m.d.comb += self.packet_bad.eq(1)
+                        m.next = "WAIT_FOR_HPSTART"
+
+                    # If we see unexpected control codes in our data packet, bail out.
+                    # Note that we'll only check for validity in positions we consider to have
+                    # valid data; as we always expect our data packet payload to be followed by
+                    # and "end of packet" set of control codes.
+                    with m.Elif((sink.ctrl & source.valid) != 0):
+                        m.d.comb += self.packet_bad.eq(1)
+                        m.next = "WAIT_FOR_HPSTART"
+
                     # If we have another word to receive after this, decrement our count,
                     # and continue.
-                    with m.If(data_bytes_remaining > 4):
+                    with m.Elif(data_bytes_remaining > 4):
                         m.d.ss += data_bytes_remaining.eq(data_bytes_remaining - 4)
 
                     with m.Else():
@@ -300,12 +309,14 @@ class DataPacketReceiver(Elaboratable):
 
                 # Check our CRC based on the word we've extracted, and strobe either ``packet_good``
                 # or ``packet_bad``, depending on its validity.
-                with m.If(data_to_check == crc32.crc):
-                    m.d.comb += self.packet_good.eq(1)
-                with m.Else():
-                    m.d.comb += self.packet_bad.eq(1)
+                # We can only decide once the word carrying the (rest of the) CRC is actually valid.
+                with m.If(sink.valid):
+                    with m.If(data_to_check == crc32.crc):
+                        m.d.comb += self.packet_good.eq(1)
+                    with m.Else():
+                        m.d.comb += self.packet_bad.eq(1)
 
-                # Finally, wait for our next packet.
+                    # Finally, wait for our next packet.
                     m.next = "WAIT_FOR_HPSTART"
 
 
